@@ -377,6 +377,9 @@ def agree(c, got, exp):
 def agree_model(c, got, m):
     if isinstance(got, dict) and got.get("err") == "raised":
         return isinstance(m, dict) and m.get("err") == "raised"
+    if c["op"] == "sort" and c.get("via") == "geometry" and isinstance(got, dict) and "iv" in got and isinstance(m, dict) and "iv" in m:
+        # np.argsort on the global start is not stable: compare the key sequence and the multiset
+        return [x[:2] for x in got["iv"]] == [x[:2] for x in m["iv"]] and sorted(got["iv"]) == sorted(m["iv"])
     return core.canon(got) == core.canon(m)
 
 
@@ -422,7 +425,7 @@ def _rand_genome(rng, allow_zero=False, min_chrom=1):
     return names, sizes
 
 
-def _rand_iv(rng, sizes, cands, k, boundary=0.6, valid=True):
+def _rand_iv(rng, sizes, cands, k, boundary=0.6, valid=True, nonempty=False):
     """k entries on chromosomes from cands (those with size > 0 when valid), boundary-heavy"""
     out = []
     cands = [c for c in cands if sizes[c] > 0] if valid else list(cands)
@@ -441,6 +444,8 @@ def _rand_iv(rng, sizes, cands, k, boundary=0.6, valid=True):
             else:
                 s = rng.randrange(sz)
                 e = rng.randint(s, sz)
+            if nonempty and e == s:
+                e = s + 1
         else:
             s = rng.randint(-3, sz + 2)
             e = rng.randint(s, sz + 3)
@@ -464,6 +469,29 @@ def _boundary_merge_cases():
                         for via in ("geometry", "genome"):
                             yield {"op": "merge", "via": via, "names": ["chr1", "chr2"], "sizes": [s1, s2], "filt": True,
                                    "iv": [[0, a, s1, True], [1, 0, e, True]], "d": d}
+
+
+def _all_iv(sizes):
+    return [[c, a, b, True] for c, sz in enumerate(sizes) for a in range(sz) for b in range(a, sz + 1)]
+
+
+def _pair_cases(top):
+    """every genome of two chromosomes with sizes 1..top x every (multi)set of two valid intervals x the dense ops"""
+    for sizes in itertools.product(range(1, top + 1), repeat=2):
+        sizes = list(sizes)
+        base = {"names": ["chr1", "chr11"], "sizes": sizes, "filt": True}
+        ivs = _all_iv(sizes)
+        for i, a in enumerate(ivs):
+            for b in ivs[i:]:
+                for via in ("genome", "geometry"):
+                    yield dict(base, op="pileup", via=via, iv=[a, b], stranded=False)
+                    yield dict(base, op="mask", via=via, iv=[b, a], stranded=False)
+                    yield dict(base, op="merge", via=via, iv=[a, b], d=0)
+                    yield dict(base, op="merge", via=via, iv=[a, b], d=1)
+                yield dict(base, op="sort", via="genome", iv=[b, a])
+                if a[1] < a[2] and b[1] < b[2]:
+                    vals = [list(range(1, sizes[0] + 1)), list(range(11, sizes[1] + 11))]
+                    yield dict(base, op="extract", iv=[[a[0], a[1], a[2], False], b], stranded=True, vals=vals)
 
 
 def cases(tier, rng):
@@ -491,8 +519,9 @@ def cases(tier, rng):
                 for c in range(n):
                     if not ign[c]:
                         yield {"op": "l2g", "names": names, "sizes": sizes, "filt": filt, "pts": [[c, sizes[c]]]}
+    yield from _pair_cases(3 if big else 2)
     # 2. random genomes x boundary-heavy entries x every entry point
-    N = 900 if big else 110
+    N = 6000 if big else 110
     for _ in range(N):
         names, sizes = _rand_genome(rng, allow_zero=True)
         filt = rng.random() < 0.7
@@ -518,7 +547,7 @@ def cases(tier, rng):
             ivz = _rand_iv(rng, sizes, cands, k, valid=False)
             yield dict(base, op="clip", via=via, iv=ivz)
             yield dict(base, op="extend", via=via, iv=(iv if rng.random() < 0.6 else ivz), L=rng.choice([0, 1, 2, 3, 7]), stranded=True)
-        iv = _rand_iv(rng, sizes, list(range(len(names))), max(k, 1))
+        iv = _rand_iv(rng, sizes, list(range(len(names))), max(k, 1), nonempty=True)
         stranded = rng.random() < 0.6
         vals = [[rng.choice([0, 1, 1, 2, 7]) for _ in range(s)] for s in sizes]
         if sum(sizes[i] for i in incl):
